@@ -205,6 +205,9 @@ def gen_outopt():
         out += "Definition cdata_sets_prevtext : bool := true.    (* writeCDATA repaired (K-C08-1) *)\n"
     else:
         raise AnchorError("writeCDATA has neither the original nor the repaired call order: " + " ".join(cd))
+    raw = facts["ops_charactersRaw"]
+    if raw != ["OPte", "OSetPreserve true", "ORawChars"] + (["OSetPrevText true"] if len(cd) == 5 else []):
+        raise AnchorError("charactersRaw call order %s does not go with writeCDATA's" % " ".join(raw))
     hdr = function_body(fx, r"writeXMLHeader\(\)\s*\{", "FormatterToXMLUnicode::writeXMLHeader")
     h = _sq(hdr)
     need(re.escape("if(m_standalone.empty()==false){m_writer.write(m_constants.s_xmlHeaderStandaloneString,m_constants.s_xmlHeaderStandaloneStringLength);m_writer.write(m_standalone);}"),
@@ -303,9 +306,13 @@ def gen_outopt():
          "flushPending creates a FormatterToHTML over the same writer")
     out += "Definition html_root_switch_ignores_case : bool := true.\n"
     ft = _sq(function_body(read("XMLSupport/FormatterToText.cpp"), r"FormatterToText::characters\s*\([^)]*\)\s*\{", "FormatterToText::characters"))
-    need(re.escape("if(chars[i]>m_maxCharacter){}"), ft, "FormatterToText: nothing is done for a character above m_maxCharacter")
     need(re.escape("m_writer->write(chars[i]);"), ft, "FormatterToText writes every unit")
-    out += "Definition text_method_checks_representability : bool := false.\n"
+    if "if(chars[i]>m_maxCharacter){}" in ft:
+        out += "Definition text_method_checks_representability : bool := false.\n"
+    elif "if(chars[i]>m_maxCharacter){XalanDOMStringtheBuffer(getMemoryManager());throwXalanTranscodingServices::UnrepresentableCharacterException(chars[i],m_encoding,theBuffer);}" in ft:
+        out += "Definition text_method_checks_representability : bool := true.    (* repaired (K18) *)\n"
+    else:
+        raise AnchorError("FormatterToText::characters: neither the original nor the repaired handling of a character above m_maxCharacter")
 
     # ---- HTML element table
     rows, enum_e, enum_a = html_table()
